@@ -45,14 +45,17 @@ VARIABLES gates,   \* the record `_gates` (accepted gates with their current par
           ver,     \* history version: bumped by every change of gates / parameters
           perm,    \* CircuitPermMPS.qubits : perm[s + 1] = logical qubit held by physical site s
           phys,    \* state of the MPS in physical site order
+          ctr,     \* true orthogonality centre of that MPS (site; -1: product state, every record is sound)
+          cell,    \* which `info` dict this object writes its canonical-form record into (gate_opts['info'])
+          info,    \* the info dicts: info[c] = recorded centre `cur_orthog` (-1: no record yet)
           other,   \* <<>> or <<a second circuit object (made by copy)>>
           rej,     \* the last action was a rejection (an exception)
           qok,     \* the last query returned the reference value
           fresh,   \* the last query read no memo entry of another version
           depth, fam, act, hist
 
-vars == <<gates, reg, tn, tnv, store, sng, mss, ver, perm, phys, other, rej, qok, fresh, depth, fam, act, hist>>
-view == <<gates, reg, tn, tnv, store, sng, mss, ver, perm, phys, other, rej, qok, fresh, depth>>
+vars == <<gates, reg, tn, tnv, store, sng, mss, ver, perm, phys, ctr, cell, info, other, rej, qok, fresh, depth, fam, act, hist>>
+view == <<gates, reg, tn, tnv, store, sng, mss, ver, perm, phys, ctr, cell, info, other, rej, qok, fresh, depth>>
 
 Exact == Cls = "exact"
 PermC == Cls \in {"perm-ss", "perm-auto"}
@@ -169,7 +172,8 @@ Logical(v, pm) ==
   TLCEval([xx \in 1..(2 ^ N) |-> v[SubIdx(xx - 1, pm, N, 1) + 1]])
 
 (* ------------------------------ actions ------------------------------------ *)
-Me == [gates |-> gates, reg |-> reg, tn |-> tn, tnv |-> tnv, store |-> store, sng |-> sng, mss |-> mss, ver |-> ver, perm |-> perm, phys |-> phys]
+Me == [gates |-> gates, reg |-> reg, tn |-> tn, tnv |-> tnv, store |-> store, sng |-> sng, mss |-> mss, ver |-> ver, perm |-> perm, phys |-> phys,
+       ctr |-> ctr, cell |-> cell]
 \* Per-action coverage.  TLC's own -coverage builds a cost tree that expands every operator application of the
 \* ring arithmetic in place (it does not fit in memory for this specification), so the actions count themselves
 \* in TLC registers (one set per worker) and report when a counter reaches a power of ten.
@@ -196,7 +200,7 @@ ApplyExact(g) ==
           /\ LET r1 == StepGate(reg, g, N) IN
              /\ reg' = IF Record THEN reg ELSE r1
              /\ tnv' = IF Record THEN tnv ELSE IF tnv = reg THEN r1 ELSE StepGate(tnv, g, N)
-  /\ UNCHANGED <<store, sng, mss, perm, phys, other, qok, fresh>>
+  /\ UNCHANGED <<store, sng, mss, perm, phys, ctr, cell, info, other, qok, fresh>>
 
 \* ---- CircuitPermMPS._apply_gate
 ApplyPerm(g) ==
@@ -207,11 +211,16 @@ ApplyPerm(g) ==
          j0    == IF two THEN Max(physq[1], physq[2]) ELSE 0
          perm1 == IF two THEN InsertAt(PopAt(perm, j0), i0 + 1, perm[j0 + 1]) ELSE perm     \* mutated FIRST
          U     == GateMat(g.name, g.p)
-         accept(newphys) == /\ gates' = Append(gates, g) /\ tn' = Append(tn, g) /\ ver' = ver + 1
+         \* nc = the centre the gate routine leaves and records (-9: leaves both as they are)
+         accept2(newphys, nc) ==
+                            /\ gates' = Append(gates, g) /\ tn' = Append(tn, g) /\ ver' = ver + 1
                             /\ perm' = perm1 /\ rej' = FALSE
+                            /\ ctr' = IF nc = 0 - 9 THEN ctr ELSE nc
+                            /\ info' = IF nc = 0 - 9 THEN info ELSE [info EXCEPT ![cell] = nc]
                             /\ phys' = IF Record THEN phys ELSE newphys
                             /\ reg' = IF Record THEN reg ELSE StepGate(reg, g, N)
-         raise(p2) == /\ UNCHANGED <<gates, reg, tn, ver, phys>> /\ perm' = p2 /\ rej' = TRUE
+         accept(newphys) == accept2(newphys, 0 - 9)
+         raise(p2) == /\ UNCHANGED <<gates, reg, tn, ver, phys, ctr, info>> /\ perm' = p2 /\ rej' = TRUE
      IN
      IF g.c # <<>> THEN
         IF Cls = "perm-ss"
@@ -221,7 +230,7 @@ ApplyPerm(g) ==
         ELSE \* 'auto-mps': sub-MPO on sorted(controls + physical targets): the controls are NOT translated
              /\ "perm-ctrl" \in Deviations
              /\ SetOfSeq(g.c) \cap SetOfSeq(physq) = {}
-             /\ accept(Apply(phys, U, physq, g.c, N))
+             /\ accept2(Apply(phys, U, physq, g.c, N), 0)         \* (sub-MPO route: some consistent record)
      ELSE IF g.name = "SWAP" THEN
         \* apply_swap -> swap_sites_with_compress_(i, j, swap_back=False, ...) : TypeError
         /\ (perm1 # perm => "perm-swap" \in Deviations)
@@ -231,10 +240,10 @@ ApplyPerm(g) ==
      ELSE IF Len(physq) = 2 THEN
         \* gate_with_auto_swap(G, where, swap_back=False): site j0 is moved next to i0, then the gate
         LET fw == IF physq[1] < physq[2] THEN <<i0, i0 + 1>> ELSE <<i0 + 1, i0>>
-        IN  accept(Apply(MoveSite(phys, j0, i0 + 1), U, fw, <<>>, N))
+        IN  accept2(Apply(MoveSite(phys, j0, i0 + 1), U, fw, <<>>, N), i0 + 1)    \* info["cur_orthog"] = (i+1, i+1)
      ELSE IF Cls = "perm-ss" THEN raise(perm1)         \* 3 sites with swap+split: ValueError, nothing touched
-     ELSE accept(Apply(phys, U, physq, <<>>, N))       \* 'nonlocal' sub-MPO, no site movement
-  /\ UNCHANGED <<store, sng, mss, other, qok, fresh, tnv>>
+     ELSE accept2(Apply(phys, U, physq, <<>>, N), 0)   \* 'nonlocal' sub-MPO, no site movement
+  /\ UNCHANGED <<store, sng, mss, other, qok, fresh, tnv, cell>>
 
 ApplyGate(g) == (ApplyExact(g) \/ ApplyPerm(g)) /\ Bump([op |-> "gate", g |-> g])
 
@@ -247,7 +256,7 @@ SetParams(i, p) ==
      /\ reg' = IF Record THEN reg ELSE r1
      /\ tnv' = IF Record THEN tnv ELSE IF tn = gates THEN r1 ELSE Run(N, SetP(tn, i, p))
   /\ store' = EmptyStore /\ sng' = Len(gates) /\ mss' = TRUE /\ ver' = ver + 1 /\ rej' = FALSE     \* clear_storage()
-  /\ UNCHANGED <<perm, phys, other, qok, fresh>>
+  /\ UNCHANGED <<perm, phys, ctr, cell, info, other, qok, fresh>>
   /\ Bump([op |-> "setp", i |-> i - 1, p |-> p])
 
 \* ---- update_params_from(tn)   (core.py 1246-1284): tn = a copy of the network in which every parametrized
@@ -271,7 +280,7 @@ UpdateParams ==
              /\ gates' = upd(gates) /\ tn' = upd(tn) /\ rej' = TRUE
              /\ tnv' = IF Record THEN tnv ELSE Run(N, upd(tn))
              /\ UNCHANGED <<reg, store, sng, mss>> /\ ver' = ver + 1
-  /\ UNCHANGED <<perm, phys, other, qok, fresh>>
+  /\ UNCHANGED <<perm, phys, ctr, cell, info, other, qok, fresh>>
   /\ Bump([op |-> "updp", ps |-> SelectSeq([i \in DOMAIN gates |-> <<i - 1, NextP(gates[i])>>], LAMBDA t : gates[t[1] + 1].par)])
 
 \* ---- copy() and continuing on either object
@@ -279,16 +288,22 @@ Copy ==
   /\ other = <<>> /\ Len(gates) > 0
   \* before /repo b38acc9f copy() copied _storage, _sampled_conditionals and _sample_n_gates but not
   \* _marginal_storage_size (deviation "copy-mss", self-test MC_dev_copy); now it is set in __init__ and copied
-  /\ other' = <<[Me EXCEPT !.mss = IF "copy-mss" \in Deviations THEN FALSE ELSE mss]>> /\ rej' = FALSE
-  /\ UNCHANGED <<gates, reg, tn, tnv, store, sng, mss, ver, perm, phys, qok, fresh>>
+  \* copy() rebuilds gate_opts with tree_map, so the copy gets its own info dict holding the same record; a shallow
+  \* copy of gate_opts would share the dict (deviation "copy-shared-info", self-test MC_dev_sharedinfo)
+  /\ LET shared == "copy-shared-info" \in Deviations
+         nc == IF shared THEN cell ELSE 3 - cell IN
+     /\ other' = <<[Me EXCEPT !.mss = IF "copy-mss" \in Deviations THEN FALSE ELSE mss, !.cell = nc]>>
+     /\ info' = [info EXCEPT ![nc] = info[cell]]
+  /\ rej' = FALSE
+  /\ UNCHANGED <<gates, reg, tn, tnv, store, sng, mss, ver, perm, phys, ctr, cell, qok, fresh>>
   /\ Bump([op |-> "copy"])
 Switch ==
   /\ other # <<>>
   /\ LET oth == other[1] IN
      /\ gates' = oth.gates /\ reg' = oth.reg /\ tn' = oth.tn /\ tnv' = oth.tnv /\ store' = oth.store /\ sng' = oth.sng /\ mss' = oth.mss /\ ver' = oth.ver
-     /\ perm' = oth.perm /\ phys' = oth.phys
+     /\ perm' = oth.perm /\ phys' = oth.phys /\ ctr' = oth.ctr /\ cell' = oth.cell
   /\ other' = <<Me>> /\ rej' = FALSE
-  /\ UNCHANGED <<qok, fresh>>
+  /\ UNCHANGED <<qok, fresh, info>>
   /\ Bump([op |-> "switch"])
 
 \* ---- queries
@@ -314,14 +329,24 @@ QueryExact(q) ==
                ELSE IF q.kind = "uni" THEN (e.tn = gates \/ Uni(N, e.tn) = Uni(N, gates))
                ELSE IF e.sv = reg /\ (q.kind \in {"amp", "dense", "sample"} \/ Region(q) = 0..N - 1 \/ ConeAll(e, Region(q))) THEN TRUE
                ELSE QImpl(q, e) = QRef(q, reg, gates)
-  /\ UNCHANGED <<gates, reg, tn, tnv, ver, perm, phys, other>> /\ rej' = FALSE
+  /\ UNCHANGED <<gates, reg, tn, tnv, ver, perm, phys, ctr, cell, info, other>> /\ rej' = FALSE
+\* local_expectation_canonical(G, where, info=gate_opts['info']): trusts the recorded centre, moves the centre to
+\* `where` and records it.  With dtype= / convert_eager=False it works on a COPY of the MPS but still writes the
+\* shared record (q.viacopy; deviation "expec-copy-info", KF-C07-9).
+Sound == info[cell] = 0 - 1 \/ ctr = 0 - 1 \/ info[cell] = ctr
+ViaCopy(q) == "viacopy" \in DOMAIN q /\ q.viacopy
 QueryPerm(q) ==
   /\ PermC /\ q.kind \in {"dense", "expec", "amp"}
-  /\ qok' = IF Record THEN TRUE
-            ELSE IF q.kind = "dense" THEN Dense(Logical(phys, perm), N, q.rev) = QRef(q, reg, gates)
-            ELSE IF q.kind = "amp" THEN Amp(Logical(phys, perm), q.b) = QRef(q, reg, gates)
-            ELSE Expec(phys, OpM(q.op), [i \in 1..Len(q.where) |-> IndexOf(perm, q.where[i])], N) = QRef(q, reg, gates)
-  /\ UNCHANGED <<gates, reg, tn, tnv, ver, perm, phys, other, store, sng, mss, fresh>> /\ rej' = FALSE
+  /\ ViaCopy(q) => "expec-copy-info" \in Deviations
+  /\ LET pw == IF q.kind = "expec" THEN [i \in 1..Len(q.where) |-> IndexOf(perm, q.where[i])] ELSE <<0>>
+         w0 == IF Len(pw) = 1 THEN pw[1] ELSE Min(pw[1], pw[2]) IN
+     /\ qok' = IF Record THEN TRUE
+               ELSE IF q.kind = "dense" THEN Dense(Logical(phys, perm), N, q.rev) = QRef(q, reg, gates)
+               ELSE IF q.kind = "amp" THEN Amp(Logical(phys, perm), q.b) = QRef(q, reg, gates)
+               ELSE Sound /\ Expec(phys, OpM(q.op), pw, N) = QRef(q, reg, gates)
+     /\ ctr' = IF q.kind = "expec" /\ ~ViaCopy(q) THEN w0 ELSE ctr
+     /\ info' = IF q.kind = "expec" THEN [info EXCEPT ![cell] = w0] ELSE info
+  /\ UNCHANGED <<gates, reg, tn, tnv, ver, perm, phys, cell, other, store, sng, mss, fresh>> /\ rej' = FALSE
 Query(q) == (QueryExact(q) \/ QueryPerm(q)) /\ Bump([op |-> "query", q |-> q])
 
 Init ==
@@ -330,6 +355,7 @@ Init ==
   /\ tnv = IF Record \/ ~Exact THEN <<>> ELSE Basis(N, 0)
   /\ phys = IF Record \/ Exact THEN <<>> ELSE Basis(N, 0)
   /\ perm = [i \in 1..N |-> i - 1]
+  /\ ctr = 0 - 1 /\ cell = 1 /\ info = <<0 - 1, 0 - 1>>
   /\ other = <<>> /\ rej = FALSE /\ qok = TRUE /\ fresh = TRUE
   /\ depth = 0 /\ fam = "none" /\ act = [op |-> "init"] /\ hist = <<>>
 
@@ -338,25 +364,25 @@ GateFam(g) == IF g.c # <<>> THEN "ctl" ELSE IF g.name \in RawNames1 \cup RawName
               ELSE IF g.name \in {"SWAP", "IDEN"} THEN "spc" ELSE IF Len(g.q) = 1 THEN "c1"
               ELSE IF Len(g.q) = 2 THEN "c2" ELSE "c3"
 QFam(q) == "q:" \o q.kind
-Fams == {"c1", "c2", "c3", "ang", "par", "par2", "ctl", "raw", "spc", "setp", "setp2", "updp", "updp2", "copy"}
+Fams == {"c1", "c2", "c3", "ang", "par", "par2", "ctl", "raw", "spc", "setp", "setp2", "updp", "updp2", "copy", "switch", "switch2"}
         \cup {QFam(q) : q \in Queries}
 
 ApplyGateA    == \E g \in Gates : (fam = "none" \/ fam = GateFam(g) \/ (fam = "par2" /\ GateFam(g) = "par")) /\ ApplyGate(g)
 SetParamsA    == (fam \in {"none", "setp", "setp2"}) /\ \E i \in DOMAIN gates : gates[i].par /\ \E p \in NewParams[gates[i].name] : SetParams(i, p)
 UpdateParamsA == (fam \in {"none", "updp", "updp2"}) /\ UpdateParams
 CopyA         == (fam \in {"none", "copy"}) /\ Copy
-SwitchA       == (fam \in {"none", "copy"}) /\ Switch
+SwitchA       == (fam \in {"none", "copy", "switch", "switch2"}) /\ Switch
 QueryA        == \E q \in Queries : (fam = "none" \/ fam = QFam(q)) /\ Query(q)
 Step == ApplyGateA \/ SetParamsA \/ UpdateParamsA \/ CopyA \/ SwitchA \/ QueryA
 \* behaviour generation draws the kind of the next action first, so that the kinds are balanced
 ChooseFam == /\ Record /\ fam = "none" /\ depth < MaxDepth /\ \E f \in Fams : fam' = f
-             /\ UNCHANGED <<gates, reg, tn, tnv, store, sng, mss, ver, perm, phys, other, rej, qok, fresh, depth, act, hist>>
+             /\ UNCHANGED <<gates, reg, tn, tnv, store, sng, mss, ver, perm, phys, ctr, cell, info, other, rej, qok, fresh, depth, act, hist>>
 GiveUp == /\ Record /\ fam \notin {"none", "done"} /\ ~ENABLED Step /\ fam' = "none"
-          /\ UNCHANGED <<gates, reg, tn, tnv, store, sng, mss, ver, perm, phys, other, rej, qok, fresh, depth, act, hist>>
+          /\ UNCHANGED <<gates, reg, tn, tnv, store, sng, mss, ver, perm, phys, ctr, cell, info, other, rej, qok, fresh, depth, act, hist>>
 \* (the simulator evaluates invariants on every candidate successor: the behaviour is emitted from the single
 \*  successor of a state that was really reached at the depth bound)
 Finish == /\ Record /\ depth = MaxDepth /\ fam = "none" /\ fam' = "done"
-          /\ UNCHANGED <<gates, reg, tn, tnv, store, sng, mss, ver, perm, phys, other, rej, qok, fresh, depth, act, hist>>
+          /\ UNCHANGED <<gates, reg, tn, tnv, store, sng, mss, ver, perm, phys, ctr, cell, info, other, rej, qok, fresh, depth, act, hist>>
 Next == IF Record THEN (ChooseFam \/ (fam \notin {"none", "done"} /\ Step) \/ GiveUp \/ Finish) ELSE Step
 Spec == Init /\ [][Next]_vars
 
@@ -375,6 +401,10 @@ RejectClean    == Record \/ (rej => /\ (Exact => tnv = reg)
 RecordInStep   == Record \/ (Exact => tn = gates /\ tnv = (IF tn = gates THEN reg ELSE Run(N, tn)))   \* `_gates` describes the network
 PermIsPerm     == SetOfSeq(perm) = 0..N - 1
 PermSound      == Record \/ (PermC => Logical(phys, perm) = reg)
+\* the canonical-form record the object will trust is true for ITS OWN network (both live objects)
+InfoSound      == PermC => /\ Sound
+                           /\ other # <<>> => LET o2 == other[1] IN
+                                 info[o2.cell] = 0 - 1 \/ o2.ctr = 0 - 1 \/ info[o2.cell] = o2.ctr
 \* every memo entry that a query could still be served from is current
 StoreCurrent   == Exact => (sng = Len(gates) => \A k \in DOMAIN store : store[k].ver = ver)
 =============================================================================
